@@ -183,6 +183,9 @@ def _check_day(out, dt, ymd, dt2str, y, m, d):
         same('uk:dd%smm%syyyy' % (sep, sep), 'dt(%r)' % s, t0, dt, s)           # uk is the default dialect
         s = '%02d%s%02d%s%04d' % (m, sep, d, sep, y)
         same('us:mm%sdd%syyyy' % (sep, sep), "dt(%r, dialect='us')" % s, t0, dt, s, dialect='us')
+        if sep == '/':
+            same('US:mm/dd/yyyy (upper-case dialect)', "dt(%r, dialect='US')" % s, t0, dt, s, dialect='US')          # the spelling the library's own docstring uses
+            same('ymd US:mm/dd/yyyy', "ymd(%r, dialect='US')" % s, t0, ymd, s, dialect='US')
     names = [
         ('d Month yyyy', '%d %s %04d' % (d, full, y)),
         ('dd Month yyyy', '%02d %s %04d' % (d, full, y)),
